@@ -1,6 +1,8 @@
 import Uom.Proofs.Exact
 import Uom.Gen.Table
 import Uom.Gen.Names
+import Uom.Proofs.BodyEq.Temp
+import Uom.Proofs.FloatOps
 /-!
 # C09 — temperature points are affine, temperature intervals are linear
 
@@ -85,5 +87,65 @@ theorem one_celsius_interval (f : Rat) (hf : f ≠ 0) : toBase ratS 1 0 f 1 * f 
 /-- the offset is applied exactly once on the way in and removed exactly once on the way out -/
 theorem offset_once (k c f t : Rat) (hk : k ≠ 0) (hf : f ≠ 0) :
     fromBase ratS k c f (toBase ratS k c f t) = t := roundtrip_rat k c f t hk hf
+
+/-! ### floats: proved bounds — a point plus an interval given in the same scale reads back as `t + d`
+up to a handful of roundings of the *absolute* temperature (`t + c`), which is what float storage of
+an affine quantity can deliver -/
+theorem point_plus_interval_float (f : Fmt) (hp : 1 ≤ f.p) (coef cA cS fac t d : Fl)
+    (hcoef : coef.toRat ≠ 0) (hfac : fac.toRat ≠ 0) (hcc : cA.toRat = cS.toRat)
+    (Ht : Proofs.ToBaseOk f coef cA fac t) (Hd : Proofs.ToBaseOk f coef (flS f).constAdd fac d)
+    (hsum : (Fl.add f (toBase (flS f) coef cA fac t)
+      (toBase (flS f) coef (flS f).constAdd fac d)).isFinite = true)
+    (Hs : Proofs.FromBaseOk f coef fac (Fl.add f (toBase (flS f) coef cA fac t)
+      (toBase (flS f) coef (flS f).constAdd fac d)))
+    (hcS : Proofs.Ok f cS)
+    (hfin : Fl.isFinite (fromBase (flS f) coef cS fac (Fl.add f (toBase (flS f) coef cA fac t)
+      (toBase (flS f) coef (flS f).constAdd fac d))) = true) :
+    |Fl.toRat (fromBase (flS f) coef cS fac (Fl.add f (toBase (flS f) coef cA fac t)
+        (toBase (flS f) coef (flS f).constAdd fac d))) - (t.toRat + d.toRat)| ≤
+      ((1 + Proofs.uro f) * ((1 - Proofs.uro f) ^ (-(3 : ℤ)) - 1) * (|t.toRat + cS.toRat| + |d.toRat|)
+          + Proofs.uro f * |t.toRat + cS.toRat + d.toRat|)
+        * (1 + ((1 - Proofs.uro f) ^ (-(2 : ℤ)) - 1) * (1 + Proofs.uro f) + Proofs.uro f)
+      + ((1 - Proofs.uro f) ^ (-(2 : ℤ)) - 1) * (1 + Proofs.uro f) * |t.toRat + cS.toRat + d.toRat|
+      + Proofs.uro f * |t.toRat + d.toRat| :=
+  Proofs.point_plus_interval_float hp hcoef hfac hcc Ht Hd hsum Hs hcS hfin
+
+/-! ### tie to the source: the function bodies regenerated from /repo/src on this run
+
+`Gen.Body.*` below is what the translator read from the Rust source just now; `Body.run` evaluates it
+over any storage type.  These theorems state the property's code path *for the regenerated bodies*:
+they fail to check as soon as the source computes something else. -/
+section SourceTie
+open Uom.Body Uom.Gen.Body
+
+/-- the five point/interval forms, autoconvert on: the interval (or, for `TI + TT`, the point) on the
+    right is re-expressed by `change_base` — a pure scaling, no offset — and added / subtracted raw -/
+theorem src_temperature_forms_on (N : NumTy) (env : Env N) (a b : N.S.V) :
+    run N env si_thermodynamic_temperature_Add_TemperatureInterval_for_ThermodynamicTemperature_add_auto [argQ a, argQ b]
+      = .q (binOpOn N .ttAddTi (env.bf .Ul .Dimension) (env.bf .Ur .Dimension) a b) ∧
+    run N env si_thermodynamic_temperature_Sub_TemperatureInterval_for_ThermodynamicTemperature_sub_auto [argQ a, argQ b]
+      = .q (binOpOn N .ttSubTi (env.bf .Ul .Dimension) (env.bf .Ur .Dimension) a b) ∧
+    run N env si_thermodynamic_temperature_AddAssign_TemperatureInterval_for_ThermodynamicTemperature_add_assign_auto [argQ a, argQ b]
+      = .v (binOpOn N .ttAddaTi (env.bf .Ul .Dimension) (env.bf .Ur .Dimension) a b) ∧
+    run N env si_thermodynamic_temperature_SubAssign_TemperatureInterval_for_ThermodynamicTemperature_sub_assign_auto [argQ a, argQ b]
+      = .v (binOpOn N .ttSubaTi (env.bf .Ul .Dimension) (env.bf .Ur .Dimension) a b) ∧
+    run N env si_temperature_interval_Add_ThermodynamicTemperature_for_TemperatureInterval_add_auto [argQ a, argQ b]
+      = .q (binOpOn N .tiAddTt (env.bf .Ul .Dimension) (env.bf .Ur .Dimension) a b) :=
+  ⟨rfl, rfl, rfl, rfl, rfl⟩
+
+theorem src_temperature_forms_off (N : NumTy) (env : Env N) (a b : N.S.V) :
+    run N env si_thermodynamic_temperature_Add_TemperatureInterval_for_ThermodynamicTemperature_add_noauto [argQ a, argQ b]
+      = .q (rawBin N .add a b) ∧
+    run N env si_thermodynamic_temperature_Sub_TemperatureInterval_for_ThermodynamicTemperature_sub_noauto [argQ a, argQ b]
+      = .q (rawBin N .sub a b) ∧
+    run N env si_thermodynamic_temperature_AddAssign_TemperatureInterval_for_ThermodynamicTemperature_add_assign_noauto [argQ a, argQ b]
+      = .v (rawBin N .add a b) ∧
+    run N env si_thermodynamic_temperature_SubAssign_TemperatureInterval_for_ThermodynamicTemperature_sub_assign_noauto [argQ a, argQ b]
+      = .v (rawBin N .sub a b) ∧
+    run N env si_temperature_interval_Add_ThermodynamicTemperature_for_TemperatureInterval_add_noauto [argQ a, argQ b]
+      = .q (rawBin N .add a b) :=
+  ⟨rfl, rfl, rfl, rfl, rfl⟩
+
+end SourceTie
 
 end Uom.C09
